@@ -306,6 +306,19 @@ def run(chk):
             else:
                 chk.violation("C05.unread", w, K.short(w, 60), "deadline + timeout", "lingering read of an unread body is unbounded")
 
+    # ---- C05.consume: bytes handed to a parser are removed from the buffer they came from ----
+    WPROTO_BUFFERS = (("RequestHandler.finish_response", "self._parser.feed_data(self._message_tail)"), ("RequestHandler.set_parser", "self._payload_parser.feed_data(self._message_tail)"))
+    for q, pat in WPROTO_BUFFERS:
+        f = repo.func(PROTO, q)
+        feeds = K.nodes_matching(f, pat)
+        if not feeds:
+            chk.analysis_error(f"C05.consume: `{pat}` not found in {q}")
+            continue
+        def clears(n):
+            return n.kind == "stmt" and isinstance(n.ast, ast.Assign) and any(norm.raw(t) == "self._message_tail" for t in n.ast.targets)
+        K.must_pass(chk, "C05.consume", f, feeds, K.via_with_calls(repo, clears), f"{q}: after the buffered bytes were fed to the parser the buffer is reassigned on every path (they are not fed twice)",
+                    construct=pat, missing="self._message_tail = <new tail>")
+
     # ---- C05.err400 ------------------------------------------------------------------------------------------------------------
     C01.err400(chk, repo, folder, errs, rule="C05.err400")
     chk.extra["effects_stats"] = dict(eff.stats)
